@@ -2,7 +2,7 @@
    Model: Model/Alloc.v (exact transcription of alloc.go / freelist.go / region.go, validated against
    the implementation after every operation of random scripts). Region lists are read as sets of
    page ids (inl). Property theorems only. *)
-From VF Require Import Region Freelist Alloc RegionProofs AllocProofs TxAllocProofs MetaAllocProofs.
+From VF Require Import Region Freelist Alloc RegionProofs AllocProofs TxAllocProofs MetaAllocProofs HistoryProofs.
 From Coq Require Import Lia.
 
 (* Tx.Alloc / Tx.AllocN: every page handed out was free (in the data free list, or beyond the end of
@@ -109,6 +109,29 @@ Theorem C04_meta_growth : forall a t count ok a' t',
   (a' = a /\ t' = t) \/ exists regs, GrowEff a t a' t' regs.
 Proof. exact try_grow_spec. Qed.
 
+(* ---- whole histories: any sequence of transactions, each any sequence of operations (treach2 spells out what
+   the caller owes: Tx.Free only of a data page in use, meta frees only of meta pages in use), each ending in
+   the commit step or in a rollback. At every quiescent point: both free lists well-formed, disjoint, below the
+   end of the data area, the free-list pages in neither of them, end markers within the size limit (InvQ);
+   inside every transaction the invariants FullInv and FreedInv (nothing recorded as freed is in a free list
+   or handed out again before the commit). Hence every page Alloc / the meta allocators hand out at any point of
+   any history is a page that is free at that point (C04_alloc_hands_out_free_pages_only, C04_overwrite_page_fresh,
+   C04_meta_pages_fresh apply in every such state). No overflow area; meta area < 2^28 pages. ---- *)
+Theorem C04_history_invariant : forall a, hreach a -> InvQ a.
+Proof. exact hreach_inv. Qed.
+Print Assumptions C04_history_invariant.
+
+Theorem C04_history_tx_invariant : forall a0 p a t, hreach a0 -> treach2 a0 p a t -> FullInv a0 a t /\ FreedInv a0 a t.
+Proof. exact history_tx_inv. Qed.
+
+(* the commit step: freed pages join the free lists only now; the result is again a quiescent state *)
+Theorem C04_commit_step : forall a0 a t extra a',
+  InvQ a0 -> FullInv a0 a t -> FreedInv a0 a t -> metaTotal a < 2^28 ->
+  commit_n a (if tx_updated t then meta_free_regions t (flPages a) else t) < 2^28 ->
+  commit_step a t extra = CoOk a' -> InvQ a'.
+Proof. exact commit_step_inv. Qed.
+Print Assumptions C04_commit_step.
+
 (* non-vacuity *)
 Definition ex_alloc : allocst :=
   {| maxPages := 64; pageSize := 1024;
@@ -125,3 +148,56 @@ Qed.
 Example C04_ex_alloc : let '(regs, cnt, _, _) := data_alloc_regions ex_alloc (make_tx ex_alloc false 0) 5 in
   regs = [{| rid := 7; rcount := 1 |}; {| rid := 9; rcount := 2 |}; {| rid := 12; rcount := 2 |}] /\ cnt = 5.
 Proof. vm_compute. split; reflexivity. Qed.
+
+(* non-vacuity of the history theorem: a transaction that allocates an overwrite page (the meta area grows out
+   of the data free list), allocates data pages, frees a committed page, and commits; then a second
+   transaction that is rolled back *)
+Definition ex_h : allocst :=
+  {| maxPages := 64; pageSize := 1024; meta := {| a_end := 9; a_free := fl_empty |}; metaTotal := 0;
+     data := {| a_end := 9; a_free := {| avail := 2; fregions := [{| rid := 3; rcount := 2 |}] |} |}; flRoot := 0; flPages := [] |}.
+Example C04_ex_invq : InvQ ex_h.
+Proof.
+  constructor.
+  - constructor; cbn.
+    + constructor; cbn.
+      * split; [constructor; cbn; [lia | lia | constructor] | reflexivity].
+      * intros id H. apply inl_cons in H as [H|H]; [unfold inr, rend in H; cbn in H; lia | destruct (inl_nil _ H)].
+      * lia.
+    + split; [constructor | reflexivity].
+    + lia.
+    + intros id H. destruct (inl_nil _ H).
+  - intros id H. destruct (inl_nil _ H).
+  - right. cbn. lia.
+Qed.
+Example C04_ex_history : exists a1 a2, hreach a1 /\ hreach a2 /\ a1 <> ex_h /\ flPages a1 <> [].
+Proof.
+  destruct (wal_alloc ex_h (make_tx ex_h false 0)) as [[[id a1] t1]|] eqn:E1; [|vm_compute in E1; discriminate].
+  destruct (data_alloc_regions a1 t1 3) as [[[regs cnt] a2] t2] eqn:E2.
+  destruct (data_free a2 t2 7) as [[a3 t3]|] eqn:E3; [|vm_compute in E1; injection E1 as <- <- <-; vm_compute in E2; injection E2 as _ _ <- <-; vm_compute in E3; discriminate].
+  assert (R3: treach2 ex_h 0 a3 t3).
+  { eapply t2_free; [eapply t2_alloc; [eapply t2_wal; [apply t2_init | | exact E1] | | exact E2] | | | | | exact E3].
+    - vm_compute. reflexivity.
+    - split; reflexivity.
+    - vm_compute in E1. injection E1 as <- <- <-. vm_compute in E2. injection E2 as _ _ <- <-. cbn.
+      intros H. repeat (apply inl_cons in H as [H|H]; [unfold inr, rend in H; cbn in H; lia|]). destruct (inl_nil _ H).
+    - vm_compute in E1. injection E1 as <- <- <-. vm_compute in E2. injection E2 as _ _ <- <-. cbn.
+      intros H. repeat (apply inl_cons in H as [H|H]; [unfold inr, rend in H; cbn in H; lia|]). destruct (inl_nil _ H).
+    - vm_compute in E1. injection E1 as <- <- <-. vm_compute in E2. injection E2 as _ _ <- <-. cbn.
+      intros H. repeat (apply inl_cons in H as [H|H]; [unfold inr, rend in H; cbn in H; lia|]). destruct (inl_nil _ H).
+    - vm_compute in E1. injection E1 as <- <- <-. vm_compute in E2. injection E2 as _ _ <- <-. unfold prot. cbn.
+      intros [[]|H]. destruct (inl_nil _ H). }
+  destruct (commit_step a3 t3 false) as [a4| |] eqn:E4.
+  2,3: vm_compute in E1; injection E1 as <- <- <-; vm_compute in E2; injection E2 as _ _ <- <-; vm_compute in E3; injection E3 as <- <-; vm_compute in E4; discriminate.
+  assert (H4: hreach a4).
+  { eapply h_commit; [apply h_init; exact C04_ex_invq | exact R3 | | | exact E4].
+    - vm_compute in E1. injection E1 as <- <- <-. vm_compute in E2. injection E2 as _ _ <- <-. vm_compute in E3. injection E3 as <- <-. vm_compute. reflexivity.
+    - vm_compute in E1. injection E1 as <- <- <-. vm_compute in E2. injection E2 as _ _ <- <-. vm_compute in E3. injection E3 as <- <-. vm_compute. reflexivity. }
+  destruct (data_alloc_regions a4 (make_tx a4 false 0) 4) as [[[regs5 cnt5] a5] t5] eqn:E5.
+  exists a4, (rollback a5 t5). split; [exact H4|]. split.
+  - eapply h_abort; [exact H4 | eapply t2_alloc; [apply t2_init | | exact E5] |].
+    + split; reflexivity.
+    + vm_compute in E1. injection E1 as <- <- <-. vm_compute in E2. injection E2 as _ _ <- <-. vm_compute in E3. injection E3 as <- <-.
+      vm_compute in E4. injection E4 as <-. vm_compute in E5. injection E5 as _ _ <- <-. vm_compute. reflexivity.
+  - vm_compute in E1. injection E1 as <- <- <-. vm_compute in E2. injection E2 as _ _ <- <-. vm_compute in E3. injection E3 as <- <-.
+    vm_compute in E4. injection E4 as <-. split; discriminate.
+Qed.
